@@ -521,7 +521,7 @@ func TestVerifC08(t *testing.T) {
 	var world []*c8Pkg
 	var werr error
 	var td []*c8Pkg
-	var tdSkipped, tdFailed int64
+	var tdSkipped, tdFailed, tdLoaded int64
 	var checkDirs []string
 	for c := range checkSet {
 		checkDirs = append(checkDirs, c)
@@ -538,27 +538,25 @@ func TestVerifC08(t *testing.T) {
 		}
 		dirs = sample
 	}
+	// The testdata directories load in the background (one `go list` each) while the generated module is
+	// loaded and its pairs are enumerated; they are waited for before the harvested patterns meet them.
 	var wg sync.WaitGroup
-	wg.Add(1)
-	go func() {
-		defer wg.Done()
-		world, werr = c8LoadWorld()
-	}()
 	var tdMu sync.Mutex
 	sem := make(chan struct{}, max(2, runtime.GOMAXPROCS(0)/2))
+	var tdClosed bool // set when the wait for the loads was given up: late results are discarded
 	for _, d := range dirs {
 		wg.Add(1)
 		go func(d string) {
 			defer wg.Done()
 			sem <- struct{}{}
 			defer func() { <-sem }()
-			if res.Expired() {
-				atomic.AddInt64(&tdFailed, 1)
-				return
-			}
 			pkgs, skipped, err := c8LoadTestdata(d)
 			tdMu.Lock()
 			defer tdMu.Unlock()
+			if tdClosed {
+				return
+			}
+			tdLoaded++
 			if err != nil {
 				tdFailed++
 				res.Note("testdata %s not loaded: %v", d, err)
@@ -568,26 +566,15 @@ func TestVerifC08(t *testing.T) {
 			td = append(td, pkgs...)
 		}(d)
 	}
-	wg.Wait()
-	t.Logf("loaded: world %d, testdata %d packages (%d dirs), %.1fs", len(world), len(td), len(dirs), time.Since(t0).Seconds())
+	world, werr = c8LoadWorld()
+	t.Logf("loaded: generated module, %d packages, %.1fs (%s)", len(world), time.Since(t0).Seconds(), c8WorldTimings)
 	if werr != nil {
+		wg.Wait()
 		res.Note("generated module: %v", werr)
 		res.NotExhaustive("the generated module could not be loaded (harness error)")
 		return
 	}
-	sort.Slice(td, func(i, j int) bool { return td[i].Name < td[j].Name })
 	res.Count("packages_generated", int64(len(world)))
-	res.Count("packages_testdata", int64(len(td)))
-	res.Count("testdata_dirs_loaded", int64(len(dirs))-tdFailed)
-	res.Count("testdata_dirs_of_pattern_owning_checks", int64(allDirs))
-	res.Count("testdata_packages_skipped_type_errors", tdSkipped)
-	if tdFailed > 0 {
-		res.NotExhaustive(fmt.Sprintf("%d testdata directories not loaded", tdFailed))
-	}
-	if !vx.Thorough() && allDirs > len(dirs) {
-		res.Note("quick tier: %d of %d testdata directories (every 4th); the thorough tier loads all", len(dirs), allDirs)
-	}
-	allPkgs := append(append([]*c8Pkg{}, world...), td...)
 
 	// ---- pairs
 	col := &c8Collector{per: map[string][]*c8Drop{}, count: map[string]int64{}, keep: 3}
@@ -676,7 +663,7 @@ func TestVerifC08(t *testing.T) {
 
 	// runStage: patterns are taken in order (weight order for the generated ones) by a pool of workers;
 	// get(i) parses pattern i (nil: the parser refuses the term, which then is not a pattern).
-	runStage := func(name string, n int, get func(i int) *c8Pat, pkgs []*c8Pkg) {
+	runStage := func(name string, budgeted bool, n int, get func(i int) *c8Pat, pkgs []*c8Pkg) {
 		var next int64 = -1
 		var done int64
 		var ww sync.WaitGroup
@@ -686,7 +673,7 @@ func TestVerifC08(t *testing.T) {
 				defer ww.Done()
 				for {
 					i := int(atomic.AddInt64(&next, 1))
-					if i >= n || res.Expired() {
+					if i >= n || (budgeted && res.Expired()) {
 						return
 					}
 					if p := get(i); p != nil {
@@ -704,9 +691,9 @@ func TestVerifC08(t *testing.T) {
 			res.NotExhaustive(fmt.Sprintf("budget reached in stage %s: %d of %d patterns (enumerated in order of weight)", name, done, n))
 		}
 	}
-	runStage("harvested", len(hpats), func(i int) *c8Pat { return hpats[i] }, allPkgs)
-	t.Logf("harvested stage done at %.1fs", time.Since(t0).Seconds())
-	runStage("generated", len(gpats), func(i int) *c8Pat {
+	runStage("harvested_on_generated_packages", false, len(hpats), func(i int) *c8Pat { return hpats[i] }, world)
+	t.Logf("harvested x generated packages done at %.1fs", time.Since(t0).Seconds())
+	runStage("generated", true, len(gpats), func(i int) *c8Pat {
 		p, err := c8NewPat(gpats[i], "gen")
 		if err != nil {
 			if atomic.AddInt64(&rejected, 1) <= 3 {
@@ -717,6 +704,7 @@ func TestVerifC08(t *testing.T) {
 		return p
 	}, world)
 	res.Count("patterns_generated_refused_by_parser", rejected)
+	t.Logf("generated stage done at %.1fs", time.Since(t0).Seconds())
 	// Outside the quantifier (the property lists func, methods, interface method, type name, var/const,
 	// generic func): the method of an instantiated generic type, which Symbol names by its instantiated
 	// receiver. Enumerated, reported as unasserted.
@@ -727,8 +715,40 @@ func TestVerifC08(t *testing.T) {
 			xpats = append(xpats, p)
 		}
 	}
-	runStage("extra_unasserted", len(xpats), func(i int) *c8Pat { return xpats[i] }, world)
-	t.Logf("generated stage done at %.1fs", time.Since(t0).Seconds())
+	runStage("extra_unasserted", false, len(xpats), func(i int) *c8Pat { return xpats[i] }, world)
+
+	// Wait for the background loads: to the end of the budget, at least 20 s (quick) / 5 min (thorough).
+	loadsDone := make(chan struct{})
+	go func() { wg.Wait(); close(loadsDone) }()
+	grace := vx.Pick(20*time.Second, 5*time.Minute)
+	if rem := vx.Budget(80*time.Second, 15*time.Minute) - time.Since(t0); rem > grace {
+		grace = rem
+	}
+	select {
+	case <-loadsDone:
+	case <-time.After(grace):
+	}
+	tdMu.Lock()
+	tdClosed = true
+	if late := int64(len(dirs)) - tdLoaded; late > 0 {
+		tdFailed += late
+		res.Note("%d testdata directories were still loading when the budget ended (busy machine); not waited for", late)
+	}
+	tdMu.Unlock()
+	sort.Slice(td, func(i, j int) bool { return td[i].Name < td[j].Name })
+	t.Logf("testdata loaded: %d packages (%d dirs) at %.1fs", len(td), len(dirs), time.Since(t0).Seconds())
+	res.Count("packages_testdata", int64(len(td)))
+	res.Count("testdata_dirs_loaded", int64(len(dirs))-tdFailed)
+	res.Count("testdata_dirs_of_pattern_owning_checks", int64(allDirs))
+	res.Count("testdata_packages_skipped_type_errors", tdSkipped)
+	if tdFailed > 0 {
+		res.NotExhaustive(fmt.Sprintf("%d testdata directories not loaded", tdFailed))
+	}
+	if !vx.Thorough() && allDirs > len(dirs) {
+		res.Note("quick tier: %d of %d testdata directories (every 4th); the thorough tier loads all", len(dirs), allDirs)
+	}
+	runStage("harvested_on_testdata_packages", false, len(hpats), func(i int) *c8Pat { return hpats[i] }, td)
+	t.Logf("harvested x testdata done at %.1fs", time.Since(t0).Seconds())
 
 	// ---- report
 	res.States = st.pairs
